@@ -2,11 +2,11 @@
 from __future__ import annotations
 from fractions import Fraction
 import numpy as np
-import impl, gen, scale
+import impl, gen, scale, forms
 from common import frac, float_is_quotient, close, score_matches
 from impl import Metric, quiet
 
-RULE = ("centre-line Dice in memory layouts {C, Fortran, transposed view, slice of a larger array, negative strides}, with and without label selection; large-scale corpus (oracle only): masks of 2^22+1 .. 2^24+3 voxels in a 25M-voxel array, identical / shifted / two-label unions, judged by exact integer counts; fragmented predictions with 8-60 sparse/dense instance ids and label lists of up to 80 entries; the same array objects scored repeatedly with in-place edits in between; object-based 1-3-D label maps x dtypes {bool,uint8..64,int32,int64} x reference label (present/absent) x "
+RULE = ("one array object passed for both roles with the reference label among the prediction labels; the same arrays as views of one buffer / read-only / ndarray subclass; centre-line Dice on 3-D arrays with an axis of length one; centre-line Dice in memory layouts {C, Fortran, transposed view, slice of a larger array, negative strides}, with and without label selection; large-scale corpus (oracle only): masks of 2^22+1 .. 2^24+3 voxels in a 25M-voxel array, identical / shifted / two-label unions, judged by exact integer counts; fragmented predictions with 8-60 sparse/dense instance ids and label lists of up to 80 entries; the same array objects scored repeatedly with in-place edits in between; object-based 1-3-D label maps x dtypes {bool,uint8..64,int32,int64} x reference label (present/absent) x "
         "prediction label or list of 1-4 labels (present/absent, non-consecutive) x with/without selection; "
         "exhaustive {0,1,2}-arrays of 4 cells x all (r, ps); non-trivial = both selected masks non-empty and different; "
         "distinct = hash of (arrays, selection, metric)")
@@ -165,6 +165,32 @@ def random_cases(ctx, n):
             ps = [rng.choice(pool) for _ in range(k)]
         for metric in ("IOU", "DSC", "RVD"):
             one_case(ctx, ref, pred, r, ps, metric, f"rand{i}")
+        if rng.random() < 0.15 and present_r:
+            # ONE label map passed for both roles (the same object), reference label among the prediction labels
+            r1 = rng.choice(present_r)
+            others = [x for x in present_r if x != r1] + [rng.randint(1, 13)]
+            lst = [r1] + rng.sample(others, rng.randint(0, min(2, len(others))))
+            rng.shuffle(lst)
+            ctx.count("same_object_both_roles")
+            for metric in ("IOU", "DSC", "RVD"):
+                one_case(ctx, ref, ref, r1, lst if rng.random() < 0.8 else r1, metric, f"rand{i}.same-object")
+        if rng.random() < 0.15:
+            psl = [ps] if isinstance(ps, int) else list(ps)
+            for name, p2, r2 in forms.pair_forms(pred, ref):
+                ctx.count("form." + name)
+                for metric in ("IOU", "DSC", "RVD"):
+                    a0, a1 = call_impl(metric, ref, pred, r, ps), call_impl(metric, r2, p2, r, ps)
+                    same = (a0 == a1) or (isinstance(a0, float) and isinstance(a1, float) and a0 != a0 and a1 != a1)
+                    try:
+                        same = same or float(a0) == float(a1) or (float(a0) != float(a0) and float(a1) != float(a1))
+                    except (TypeError, ValueError):
+                        pass
+                    if not same:
+                        inp = {"shape": list(ref.shape), "dtype": str(ref.dtype), "ref": gen.arr_json(ref.astype(np.int64)), "pred": gen.arr_json(pred.astype(np.int64)),
+                               "r": r, "ps": ps, "m": metric, "form": name, "src": f"rand{i}.{name}"}
+                        ctx.case(inp, True)
+                        ctx.violation(f"{metric} of the same arrays passed as {name.replace('_', ' ')} is {a1!r}, but {a0!r} for separately allocated arrays",
+                                      inp, impl=[repr(a0), repr(a1)], key={"metric": metric, "kind": "form"})
         if rng.random() < 0.3:
             b_r = (ref != 0).astype(rng.choice([np.uint8, np.bool_, np.int64]))
             b_p = (pred != 0).astype(b_r.dtype)
@@ -300,6 +326,12 @@ def run(ctx):
     rng = ctx.rng
     for i in range(ctx.scale(25, 250)):
         shape = gen.rand_shape(rng, ndim=rng.choice([2, 3]), lo=3, hi=8)
+        if rng.random() < 0.2:
+            # a 3-D array with an axis of length one (a single slice stored as a volume): still 3-D
+            sh2 = gen.rand_shape(rng, ndim=2, lo=5, hi=12)
+            k = rng.randint(0, 2)
+            shape = tuple(sh2[:k]) + (1,) + tuple(sh2[k:])
+            ctx.count("cldsc.singleton_axis")
         ref = (gen.instance_map(rng, shape, rng.randint(1, 3)) != 0).astype(np.uint8)
         pred = (gen.perturb(rng, ref) != 0).astype(np.uint8)
         if ref.any() and pred.any():
